@@ -43,6 +43,10 @@ OBLIGATIONS = [
         "C23_plain_own_argument_path_partial",
         "C23_templated_survives_partial",
         "C23_witness_strip",
+        "C23_value_dots_survive",
+        "C23_value_dots_survive_templated",
+        "C23_witness_dots_kept",
+        "C23_witness_strip_after",
         "C23_witness_bracket",
         "C23_witness_brace_error",
         "C23_witness_brace_injection",
@@ -137,6 +141,8 @@ def run_cases(ctx, cases, *, real_child=False):
             for ch, lab in ((" ", "space"), ("\t", "tab"), ("\n", "newline"), ("'", "squote"), ('"', "dquote"), ("\\", "backslash"), ("$", "dollar"), ("*", "star")):
                 if ch in e:
                     ctx.count("elem-with-" + lab)
+            if "..." in e:
+                ctx.count("elem-with-three-dots")
             if e == "":
                 ctx.count("elem-empty")
             if any(ord(x) > 127 for x in e):
